@@ -439,7 +439,7 @@ Proof.
   destruct (schedule fin s pts) as [s' [u|e]]; exact G.
 Qed.
 
-Lemma side_good s m edge mask pts acc : Inv s -> Good s (fst (side fin s m edge mask pts acc)).
+Lemma side_good s0 s m edge mask pts acc : Inv s -> Good s (fst (side fin s0 s m edge mask pts acc)).
 Proof.
   intro HI. unfold side. destruct (existsb _ mask); [|apply Good_refl; exact HI].
   destruct m; try (apply Good_refl; exact HI).
@@ -452,8 +452,8 @@ Proof.
   intro HI. unfold evalOOB.
   destruct (mode_eqb (mlo s) ERROR && mode_eqb (mhi s) ERROR); [apply Good_refl; exact HI|].
   destruct (negb (hasT s) || _); [apply evalDirect_good; exact HI|].
-  match goal with |- context [side fin s ?m ?e ?k ?p ?a] =>
-    pose proof (side_good s m e k p a HI) as G; destruct (side fin s m e k p a) as [s1 [acc1|e1]] end;
+  match goal with |- context [side fin s s ?m ?e ?k ?p ?a] =>
+    pose proof (side_good s s m e k p a HI) as G; destruct (side fin s s m e k p a) as [s1 [acc1|e1]] end;
     cbn [fst] in *; [|exact G].
   eapply Good_trans; [exact G|]. apply side_good. exact (proj1 G).
 Qed.
@@ -613,14 +613,14 @@ Definition side_tag (s : st) (m : mode) (edge q : Q) : tag :=
   | NONE => dirtag q | CONSTANT => splineAt s 0 edge | FUNCTION => splineAt s 0 q | ERROR => Uninit
   end.
 
-Lemma side_pure s m edge (mk : Q -> bool) pts (f : Q -> tag) : adaptive s = false -> m <> ERROR ->
-  side fin s m edge (map mk pts) pts (map f pts) =
-  (s, Ok (map (fun q => if mk q then side_tag s m edge q else f q) pts)).
+Lemma side_pure s0 s m edge (mk : Q -> bool) pts (f : Q -> tag) : adaptive s = false -> m <> ERROR ->
+  side fin s0 s m edge (map mk pts) pts (map f pts) =
+  (s, Ok (map (fun q => if mk q then side_tag s0 m edge q else f q) pts)).
 Proof.
   intros Ha Hm. unfold side. destruct (existsb (fun b => b) (map mk pts)) eqn:E.
   - destruct m; [congruence| | |].
     + rewrite evalDirect_pure by exact Ha. rewrite scatter_map. reflexivity.
-    + rewrite (scatter_map mk (fun _ => splineAt s 0 edge) f). reflexivity.
+    + rewrite (scatter_map mk (fun _ => splineAt s0 0 edge) f). reflexivity.
     + rewrite scatter_map. reflexivity.
   - f_equal. f_equal. apply map_ext_in. intros q Hq.
     rewrite (existsb_map_false mk pts E q Hq). reflexivity.
@@ -641,8 +641,8 @@ Proof.
   - apply andb_true_iff in EN. destruct EN as [E1 E2]. apply mode_eqb_eq in E1, E2.
     rewrite evalDirect_pure by exact Ha. f_equal. f_equal. apply map_ext. intro q.
     unfold oob_tag. rewrite E1, E2. destruct (Qle_bool (rmax s) q); reflexivity.
-  - rewrite (side_pure s (mlo s) (rmin s) (fun q => Qle_bool q (rmin s)) pts _ Ha Hlo).
-    rewrite (side_pure s (mhi s) (rmax s) (fun q => Qle_bool (rmax s) q) pts _ Ha Hhi).
+  - rewrite (side_pure s s (mlo s) (rmin s) (fun q => Qle_bool q (rmin s)) pts _ Ha Hlo).
+    rewrite (side_pure s s (mhi s) (rmax s) (fun q => Qle_bool (rmax s) q) pts _ Ha Hhi).
     f_equal. f_equal. apply map_ext_in. intros q Hq. specialize (Hout q Hq). unfold oob_tag.
     destruct (Qle_bool (rmax s) q); [reflexivity|]. rewrite orb_false_r in Hout. rewrite Hout. reflexivity.
 Qed.
@@ -684,23 +684,23 @@ Qed.
 (** outside the table the out-of-bounds branch produces exactly what the mode of that side
     prescribes; in particular a FUNCTION side is always answered by an EXTRAPOLATING spline
     (never nan) and a CONSTANT side by the spline at the stored end point *)
-Lemma oob_is_spec s q : TInv s -> hasT s = true -> mlo s <> ERROR -> mhi s <> ERROR ->
+Lemma oob_is_spec s q : TInv s -> hasT s = true ->
   inrange s q = false -> oob_tag s q = spec_tag s 0 q.
 Proof.
-  intros HT Hh Hlo Hhi Hq. pose proof (range_nonempty s HT Hh) as Hr.
+  intros HT Hh Hq. pose proof (range_nonempty s HT Hh) as Hr.
   destruct (HT Hh) as [_ [_ [_ [_ [Hex _]]]]].
   unfold oob_tag, spec_tag. rewrite Hq. pose proof (inrange_false s q Hq) as Hside.
   destruct (Qle_bool (rmax s) q) eqn:Eu.
   - apply Qle_bool_iff in Eu.
     assert (Hup : rmax s < q) by (destruct Hside; lra).
     replace (Qle_bool q (rmin s)) with false by (symmetry; apply Qle_bool_false; lra).
-    unfold side_tag. destruct (mhi s) eqn:Em; [congruence|reflexivity| |].
+    unfold side_tag. destruct (mhi s) eqn:Em; [reflexivity|reflexivity| |].
     + apply splineAt_in; auto. lra.
     + rewrite splineAt_out by auto. rewrite Hex. try rewrite Em. cbn [is_fun]. rewrite ?orb_true_r. reflexivity.
   - apply Qle_bool_false in Eu.
     assert (Hdn : q < rmin s) by (destruct Hside; lra).
     replace (Qle_bool q (rmin s)) with true by (symmetry; apply Qle_bool_iff; lra).
-    unfold side_tag. destruct (mlo s) eqn:Em; [congruence|reflexivity| |].
+    unfold side_tag. destruct (mlo s) eqn:Em; [reflexivity|reflexivity| |].
     + apply splineAt_in; auto. lra.
     + rewrite splineAt_out by auto. rewrite Hex. try rewrite Em. cbn [is_fun orb]. reflexivity.
 Qed.
@@ -771,7 +771,7 @@ Proof.
       { intro E. rewrite E, Em in EE. discriminate EE. }
       replace (mode_eqb (mhi s) NONE) with false by (rewrite Em; reflexivity).
       rewrite andb_false_r.
-      rewrite (side_pure s (mlo s) (rmin s) (fun q => Qle_bool q (rmin s)) out _ Ha Hlo).
+      rewrite (side_pure s s (mlo s) (rmin s) (fun q => Qle_bool q (rmin s)) out _ Ha Hlo).
       rewrite Em. unfold side.
       rewrite (existsb_map_true (fun q => Qle_bool (rmax s) q) out q); [reflexivity|auto|].
       apply Qle_bool_iff. lra. }
@@ -1012,8 +1012,8 @@ Proof.
   - eexists; split; [reflexivity|]. repeat split; assumption.
 Qed.
 
-Lemma side_total s m edge mask pts acc : Inv s -> hasT s = true -> m <> ERROR ->
-  exists s' ts, side fin s m edge mask pts acc = (s', Ok ts) /\ Keeps s s'.
+Lemma side_total s0 s m edge mask pts acc : Inv s -> hasT s = true -> m <> ERROR ->
+  exists s' ts, side fin s0 s m edge mask pts acc = (s', Ok ts) /\ Keeps s s'.
 Proof.
   intros HI Hh Hm. unfold side.
   assert (K0 : Keeps s s) by (repeat split; assumption).
@@ -1031,12 +1031,12 @@ Proof.
     by (symmetry; destruct (mode_eqb (mlo s) ERROR) eqn:E; [apply mode_eqb_eq in E; congruence|reflexivity]).
   cbn [andb]. rewrite Hh. cbn [negb orb]. destruct (mode_eqb (mlo s) NONE && mode_eqb (mhi s) NONE).
   - destruct (evalDirect_total s pts HI Hh) as [s' [E _]]. rewrite E. eauto.
-  - match goal with |- context [side fin s ?m ?e ?k ?p ?a] =>
-      destruct (side_total s m e k p a HI Hh Hlo) as [s1 [acc1 [E [Hh1 [K1 K2]]]]];
-      pose proof (side_good s m e k p a HI) as G; rewrite E in *; cbn [fst] in G end.
+  - match goal with |- context [side fin s s ?m ?e ?k ?p ?a] =>
+      destruct (side_total s s m e k p a HI Hh Hlo) as [s1 [acc1 [E [Hh1 [K1 K2]]]]];
+      pose proof (side_good s s m e k p a HI) as G; rewrite E in *; cbn [fst] in G end.
     assert (Hhi1 : mhi s1 <> ERROR) by (rewrite K2; exact Hhi).
-    match goal with |- context [side fin s1 ?m ?e ?k ?p ?a] =>
-      destruct (side_total s1 m e k p a (proj1 G) Hh1 Hhi1) as [s2 [acc2 [E2 _]]]; rewrite E2 end.
+    match goal with |- context [side fin s s1 ?m ?e ?k ?p ?a] =>
+      destruct (side_total s s1 m e k p a (proj1 G) Hh1 Hhi1) as [s2 [acc2 [E2 _]]]; rewrite E2 end.
     eauto.
 Qed.
 
@@ -1067,8 +1067,8 @@ Proof.
   cbn [andb]. rewrite Hh. cbn [negb orb]. unfold oob3.
   destruct (mode_eqb (mlo s) NONE && mode_eqb (mhi s) NONE) eqn:EN.
   - rewrite evalDirect_pure by exact Ha. reflexivity.
-  - rewrite (side_pure s (mlo s) (rmin s) (fun q => Qle_bool q (rmin s)) pts _ Ha Hlo).
-    rewrite (side_pure s (mhi s) (rmax s) (fun q => Qle_bool (rmax s) q) pts _ Ha Hhi).
+  - rewrite (side_pure s s (mlo s) (rmin s) (fun q => Qle_bool q (rmin s)) pts _ Ha Hlo).
+    rewrite (side_pure s s (mhi s) (rmax s) (fun q => Qle_bool (rmax s) q) pts _ Ha Hhi).
     f_equal. f_equal. apply map_ext. intro q.
     destruct (Qle_bool (rmax s) q); [reflexivity|]. destruct (Qle_bool q (rmin s)); reflexivity.
 Qed.
@@ -1197,9 +1197,9 @@ Qed.
       state of the call, the upper side in the state the lower side's direct evaluations left
       behind (an adaptive update may have rebuilt the table in between) *)
 
-Lemma side_form s m edge (mk : Q -> bool) pts (f : Q -> tag) s' ts :
-  side fin s m edge (map mk pts) pts (map f pts) = (s', Ok ts) ->
-  ts = map (fun q => if mk q then side_tag s m edge q else f q) pts.
+Lemma side_form s0 s m edge (mk : Q -> bool) pts (f : Q -> tag) s' ts :
+  side fin s0 s m edge (map mk pts) pts (map f pts) = (s', Ok ts) ->
+  ts = map (fun q => if mk q then side_tag s0 m edge q else f q) pts.
 Proof.
   unfold side. destruct (existsb (fun b => b) (map mk pts)) eqn:E.
   - destruct m.
@@ -1207,15 +1207,15 @@ Proof.
     + destruct (evalDirect fin s (select (map mk pts) pts)) as [s1 [tg|e]] eqn:Ed;
         intro H; [|discriminate H]. injection H as _ <-.
       apply evalDirect_tags in Ed. subst tg. apply scatter_map.
-    + intro H. injection H as _ <-. apply (scatter_map mk (fun _ => splineAt s 0 edge) f).
+    + intro H. injection H as _ <-. apply (scatter_map mk (fun _ => splineAt s0 0 edge) f).
     + intro H. injection H as _ <-. apply scatter_map.
   - intro H. injection H as _ <-. apply map_ext_in. intros q Hq.
     rewrite (existsb_map_false mk pts E q Hq). reflexivity.
 Qed.
 
 (** a side changes the state only through direct evaluations with adaptive bookkeeping on *)
-Lemma side_state s m edge mask pts acc : (m <> NONE \/ adaptive s = false) ->
-  fst (side fin s m edge mask pts acc) = s.
+Lemma side_state s0 s m edge mask pts acc : (m <> NONE \/ adaptive s = false) ->
+  fst (side fin s0 s m edge mask pts acc) = s.
 Proof.
   intro H. unfold side. destruct (existsb _ mask); [|reflexivity].
   destruct m; try reflexivity. destruct H as [H|H]; [congruence|].
@@ -1256,8 +1256,8 @@ Proof.
   destruct (schedule fin s pts) as [s' [u|e]]; exact K.
 Qed.
 
-Lemma side_keeps_always s m edge mask pts acc : hasT s = true ->
-  Keeps s (fst (side fin s m edge mask pts acc)).
+Lemma side_keeps_always s0 s m edge mask pts acc : hasT s = true ->
+  Keeps s (fst (side fin s0 s m edge mask pts acc)).
 Proof.
   intro Hh. unfold side. destruct (existsb _ mask); [|repeat split; assumption].
   destruct m; try (repeat split; assumption).
@@ -1265,111 +1265,128 @@ Proof.
   destruct (evalDirect fin s (select mask pts)) as [s' [u|e]]; exact K.
 Qed.
 
-Definition lower_spec (s : st) (q : Q) : tag :=
-  match mlo s with
-  | NONE => dirtag q | CONSTANT => Spl 0 KIn (rmin s) | FUNCTION => Spl 0 KExt q | ERROR => Uninit
-  end.
-(** [s1]: the state in which the upper side is answered *)
-Definition upper_spec (s1 : st) (q : Q) : tag :=
-  match mhi s1 with
-  | NONE => dirtag q | CONSTANT => Spl 0 KIn (rmax s1)
-  | FUNCTION => if inrange s1 q then Spl 0 KIn q else Spl 0 KExt q | ERROR => Uninit
-  end.
-Definition all_spec (s s1 : st) (q : Q) : tag :=
-  if inrange s q then Spl 0 KIn q
-  else if Qle_bool (rmax s) q then upper_spec s1 q else lower_spec s q.
-
-Lemma upper_tag_spec s1 q : TInv s1 -> hasT s1 = true ->
-  side_tag s1 (mhi s1) (rmax s1) q = upper_spec s1 q.
+(** whatever the history (adaptive bookkeeping on, an update firing in the middle of the call):
+    a successful _evaluateOutOfBounds answers EVERY point in the state in which it was entered *)
+Lemma evalOOB_form s pts s' ts : hasT s = true -> evalOOB fin s pts = (s', Ok ts) ->
+  ts = map (oob3 s) pts.
 Proof.
-  intros HT Hh. pose proof (range_nonempty s1 HT Hh) as Hr.
-  destruct (HT Hh) as [_ [_ [_ [_ [Hex _]]]]].
-  unfold side_tag, upper_spec. destruct (mhi s1) eqn:Em; try reflexivity.
-  - apply splineAt_in; auto. lra.
-  - destruct (inrange s1 q) eqn:Ei.
-    + apply splineAt_in; auto. apply inrange_iff; exact Ei.
-    + rewrite splineAt_out by (auto using inrange_false). rewrite Hex.
-      try rewrite Em. cbn [is_fun]. rewrite ?orb_true_r. reflexivity.
+  intros Hh. unfold evalOOB, oob3.
+  destruct (mode_eqb (mlo s) ERROR && mode_eqb (mhi s) ERROR); [intro H; discriminate H|].
+  rewrite Hh. cbn [negb orb].
+  destruct (mode_eqb (mlo s) NONE && mode_eqb (mhi s) NONE) eqn:EN.
+  - intro H. apply evalDirect_tags in H. exact H.
+  - match goal with |- context [side fin s s ?m ?e ?k ?p ?a] =>
+      pose proof (side_keeps_always s s m e k p a Hh) as K1;
+      destruct (side fin s s m e k p a) as [s1 [acc1|e1]] eqn:E1 end; [|intro H; discriminate H].
+    cbn [fst] in K1. destruct K1 as [_ [_ Km2]]. intro Eo.
+    apply (side_form s s (mlo s) (rmin s) (fun q => Qle_bool q (rmin s))) in E1. subst acc1.
+    apply (side_form s s1 (mhi s1) (rmax s) (fun q => Qle_bool (rmax s) q)) in Eo. subst ts.
+    apply map_ext. intro q. rewrite Km2.
+    destruct (Qle_bool (rmax s) q); [reflexivity|].
+    destruct (Qle_bool q (rmin s)); reflexivity.
 Qed.
 
-Lemma lower_tag_spec s q : TInv s -> hasT s = true -> q < rmin s ->
-  side_tag s (mlo s) (rmin s) q = lower_spec s q.
+Lemma oob3_spec s q : TInv s -> hasT s = true -> inrange s q = false -> oob3 s q = spec_tag s 0 q.
 Proof.
-  intros HT Hh Hq. pose proof (range_nonempty s HT Hh) as Hr.
-  destruct (HT Hh) as [_ [_ [_ [_ [Hex _]]]]].
-  unfold side_tag, lower_spec. destruct (mlo s) eqn:Em; try reflexivity.
-  - apply splineAt_in; auto. lra.
-  - rewrite splineAt_out by auto. rewrite Hex. try rewrite Em. cbn [is_fun orb]. reflexivity.
+  intros HT Hh Hq. rewrite <- (oob_is_spec s q HT Hh Hq). unfold oob3, oob_tag.
+  pose proof (range_nonempty s HT Hh) as Hr. pose proof (inrange_false s q Hq) as Hside.
+  destruct (mode_eqb (mlo s) NONE && mode_eqb (mhi s) NONE) eqn:EN.
+  - apply andb_true_iff in EN. destruct EN as [E1 E2]. apply mode_eqb_eq in E1, E2.
+    rewrite E1, E2. destruct (Qle_bool (rmax s) q); reflexivity.
+  - destruct (Qle_bool (rmax s) q) eqn:Eu; [reflexivity|]. apply Qle_bool_false in Eu.
+    replace (Qle_bool q (rmin s)) with true by (symmetry; apply Qle_bool_iff; destruct Hside; lra).
+    reflexivity.
 Qed.
 
 Lemma evaluate_all_histories_l s sh pts s' sh' ts : Inv s -> hasT s = true ->
-  evaluate fin s true sh pts = (s', Ok (sh', ts)) ->
-  exists s1, Inv s1 /\ hasT s1 = true /\ mlo s1 = mlo s /\ mhi s1 = mhi s /\
-             ((mlo s <> NONE \/ adaptive s = false) -> s1 = s) /\
-             ts = map (all_spec s s1) pts.
+  evaluate fin s true sh pts = (s', Ok (sh', ts)) -> ts = map (spec_tag s 0) pts.
 Proof.
-  intros HI Hh. pose proof HI as [HT _]. pose proof (range_nonempty s HT Hh) as Hr.
-  unfold evaluate. rewrite Hh. cbn [negb orb]. rewrite map_map.
+  intros [HT _] Hh. unfold evaluate. rewrite Hh. cbn [negb orb]. rewrite map_map.
   set (m' := fun q => negb (inrange s q)).
   set (base := map (fun q => if inrange s q then splineAt s 0 q else Uninit) pts).
-  (* whatever tags [T] the out-of-range points get, the result is the element-wise merge *)
-  assert (Merge : forall (T : Q -> tag) s1,
-            (forall q, inrange s q = false -> T q = if Qle_bool (rmax s) q then upper_spec s1 q
-                                                    else lower_spec s q) ->
-            scatter (map m' pts) (map T (select (map m' pts) pts)) base = map (all_spec s s1) pts).
-  { intros T s1 HTq. unfold base. rewrite scatter_map. apply map_ext. intro q. unfold m', all_spec.
+  assert (Merge : scatter (map m' pts) (map (oob3 s) (select (map m' pts) pts)) base =
+                  map (spec_tag s 0) pts).
+  { unfold base. rewrite scatter_map. apply map_ext. intro q. unfold m'.
     destruct (inrange s q) eqn:Eq; cbn [negb].
-    - apply splineAt_in; auto. apply inrange_iff; exact Eq.
-    - apply HTq; exact Eq. }
+    - unfold spec_tag. rewrite Eq. apply splineAt_in; auto. apply inrange_iff; exact Eq.
+    - apply oob3_spec; auto. }
   destruct (select (map m' pts) pts) as [|o out] eqn:Es.
-  - intro H. injection H as <- <- <-. exists s.
-    split; [exact HI|]. split; [exact Hh|]. split; [reflexivity|]. split; [reflexivity|].
-    split; [intros _; reflexivity|].
-    rewrite <- (Merge (fun q => if Qle_bool (rmax s) q then upper_spec s q else lower_spec s q) s)
-      by reflexivity.
-    cbn [map]. rewrite scatter_nil. reflexivity.
+  - intro H. injection H as _ _ <-. rewrite <- Merge. cbn [map]. rewrite scatter_nil. reflexivity.
   - destruct (evalOOB fin s (o :: out)) as [s2 [ts0|e]] eqn:Eo; intro H; [|discriminate H].
-    injection H as <- <- <-. rewrite <- Es in *.
-    assert (Hout : forall q, In q (select (map m' pts) pts) -> q < rmin s \/ rmax s < q).
-    { intros q Hq. apply select_In in Hq. destruct Hq as [Hq _]. unfold m' in Hq.
-      apply negb_true_iff in Hq. apply inrange_false; exact Hq. }
-    unfold evalOOB in Eo.
-    destruct (mode_eqb (mlo s) ERROR && mode_eqb (mhi s) ERROR); [discriminate Eo|].
-    rewrite Hh in Eo. cbn [negb orb] in Eo.
-    destruct (mode_eqb (mlo s) NONE && mode_eqb (mhi s) NONE) eqn:EN.
-    + (* both NONE: everything outside is evaluated directly *)
-      apply andb_true_iff in EN. destruct EN as [E1 E2]. apply mode_eqb_eq in E1, E2.
-      pose proof (evalDirect_tags _ _ _ _ Eo) as ->.
-      pose proof (evalDirect_good s (select (map m' pts) pts) HI) as G.
-      pose proof (evalDirect_keeps_always s (select (map m' pts) pts) Hh) as K.
-      rewrite Eo in G, K. cbn [fst] in G, K. destruct K as [K1 [K2 K3]].
-      exists s2. split; [exact (proj1 G)|]. split; [exact K1|]. split; [exact K2|]. split; [exact K3|].
-      split.
-      * intros [Hn|Ha]; [congruence|]. rewrite evalDirect_pure in Eo by exact Ha. congruence.
-      * apply Merge. intros q _. unfold upper_spec, lower_spec. rewrite K3, E1, E2.
-        destruct (Qle_bool (rmax s) q); reflexivity.
-    + match type of Eo with context [side fin s ?m ?e ?k ?p ?a] =>
-        pose proof (side_good s m e k p a HI) as G1;
-        pose proof (side_keeps_always s m e k p a Hh) as K1;
-        pose proof (side_state s m e k p a) as St1;
-        destruct (side fin s m e k p a) as [s1 [acc1|e1]] eqn:E1 end; [|discriminate Eo].
-      cbn [fst] in G1, K1, St1. destruct K1 as [Hh1 [Km1 Km2]].
-      apply (side_form s (mlo s) (rmin s) (fun q => Qle_bool q (rmin s))) in E1. subst acc1.
-      apply (side_form s1 (mhi s1) (rmax s1) (fun q => Qle_bool (rmax s) q)) in Eo. subst ts0.
-      exists s1. split; [exact (proj1 G1)|]. split; [exact Hh1|]. split; [exact Km1|].
-      split; [exact Km2|]. split; [exact St1|].
-      rewrite <- (Merge (fun q => if Qle_bool (rmax s) q then upper_spec s1 q
-                                  else if Qle_bool q (rmin s) then side_tag s (mlo s) (rmin s) q
-                                  else if Qle_bool q (rmin s) || Qle_bool (rmax s) q then Uninit
-                                  else splineAt s 0 q) s1).
-      * f_equal. apply map_ext_in. intros q Hq.
-        destruct (Qle_bool (rmax s) q); [|reflexivity].
-        apply upper_tag_spec; [exact (proj1 (proj1 G1))|exact Hh1].
-      * intros q Hq. apply inrange_false in Hq.
-        destruct (Qle_bool (rmax s) q) eqn:Eu; [reflexivity|]. apply Qle_bool_false in Eu.
-        assert (Hlt : q < rmin s) by (destruct Hq; lra).
-        replace (Qle_bool q (rmin s)) with true by (symmetry; apply Qle_bool_iff; lra).
-        apply lower_tag_spec; assumption.
+    injection H as _ _ <-. apply (evalOOB_form s (o :: out) s2 ts0 Hh) in Eo. subst ts0.
+    exact Merge.
+Qed.
+
+(** the derivative for every history: inside -> the spline's derivative in the state of the call;
+    outside -> the stencil over out-of-bounds values answered in the state [s1] in which
+    helpers.derivative's SECOND call of _evaluateOutOfBounds is entered (= the state of the call
+    unless a direct evaluation of the first call moved it) *)
+Definition dspec2 (s s1 : st) (n : nat) (dx q : Q) : dtag :=
+  if inrange s q then DOne (Spl n KIn q)
+  else DFD (map (fun z => oob_red s1 (Qred (q + inject_Z z * dx))) (stencil n)).
+
+Lemma deriv_all_histories_l s n sh pts dx pos s' sh' ts : Inv s -> hasT s = true ->
+  (n = 1 \/ n = 2)%nat ->
+  derivative fin s n true sh pts dx pos = (s', Ok (sh', ts)) ->
+  exists s1, Inv s1 /\ hasT s1 = true /\ mlo s1 = mlo s /\ mhi s1 = mhi s /\
+             (adaptive s = false -> s1 = s) /\ ts = map (dspec2 s s1 n dx) pts.
+Proof.
+  intros HI Hh Hn. pose proof HI as [HT _]. unfold derivative. rewrite Hh. cbn [negb orb].
+  replace (2 <? n)%nat with false by (destruct Hn; subst; reflexivity).
+  rewrite map_map.
+  set (m' := fun q => negb (inrange s q)).
+  set (base := map (fun q => DOne (if inrange s q then splineAt s n q else Uninit)) pts).
+  assert (Merge : forall s1, TInv s1 -> hasT s1 = true ->
+            scatter (map m' pts) (fd_columns n (length (select (map m' pts) pts))
+                                    (map (oob3 s1) (fd_pos n dx (select (map m' pts) pts)))) base
+            = map (dspec2 s s1 n dx) pts).
+  { intros s1 HT1 Hh1. rewrite fd_columns_spec. unfold base. rewrite scatter_map.
+    apply map_ext. intro q. unfold m', dspec2, fd_tag.
+    destruct (inrange s q) eqn:Eq; cbn [negb].
+    - f_equal. apply splineAt_in; auto. apply inrange_iff; exact Eq.
+    - f_equal. apply map_ext. intro z. apply oob3_red; assumption. }
+  destruct (select (map m' pts) pts) as [|o out] eqn:Es.
+  - intro H. injection H as _ _ <-. exists s. split; [exact HI|]. split; [exact Hh|].
+    split; [reflexivity|]. split; [reflexivity|]. split; [intros _; reflexivity|].
+    rewrite <- (Merge s HT Hh). cbn [length fd_pos fd_columns seq map]. unfold fd_columns.
+    cbn [length seq map]. rewrite scatter_nil. reflexivity.
+  - unfold twice.
+    pose proof (evalOOB_good s (fd_pos n dx (o :: out)) HI) as G1.
+    destruct (evalOOB fin s (fd_pos n dx (o :: out))) as [s1 [t1|e1]] eqn:E1; [|intro H; discriminate H].
+    cbn [fst] in G1.
+    assert (K1 : Keeps s s1).
+    { unfold evalOOB in E1.
+      destruct (mode_eqb (mlo s) ERROR && mode_eqb (mhi s) ERROR); [discriminate E1|].
+      rewrite Hh in E1. cbn [negb orb] in E1.
+      destruct (mode_eqb (mlo s) NONE && mode_eqb (mhi s) NONE).
+      - pose proof (evalDirect_keeps_always s (fd_pos n dx (o :: out)) Hh) as K. rewrite E1 in K. exact K.
+      - match type of E1 with context [side fin s s ?m ?e ?k ?p ?a] =>
+          pose proof (side_keeps_always s s m e k p a Hh) as Ka;
+          destruct (side fin s s m e k p a) as [sa [acca|ea]] end; [|discriminate E1].
+        cbn [fst] in Ka. destruct Ka as [Ha1 [Ha2 Ha3]].
+        match type of E1 with side fin ?S0 sa ?m ?e ?k ?p ?a = _ =>
+          pose proof (side_keeps_always S0 sa m e k p a Ha1) as Kb end.
+        rewrite E1 in Kb. cbn [fst] in Kb. destruct Kb as [Hb1 [Hb2 Hb3]].
+        repeat split; congruence. }
+    destruct K1 as [Hh1 [Km1 Km2]].
+    destruct (evalOOB fin s1 (fd_pos n dx (o :: out))) as [s2 [t2|e2]] eqn:E2; intro H; [|discriminate H].
+    injection H as _ _ <-.
+    apply (evalOOB_form s1 _ s2 t2 Hh1) in E2. subst t2.
+    exists s1. split; [exact (proj1 G1)|]. split; [exact Hh1|]. split; [exact Km1|].
+    split; [exact Km2|]. split.
+    + intro Ha. unfold evalOOB in E1.
+      destruct (mode_eqb (mlo s) ERROR && mode_eqb (mhi s) ERROR); [discriminate E1|].
+      rewrite Hh in E1. cbn [negb orb] in E1.
+      destruct (mode_eqb (mlo s) NONE && mode_eqb (mhi s) NONE).
+      * rewrite evalDirect_pure in E1 by exact Ha. congruence.
+      * match type of E1 with context [side fin s s ?m ?e ?k ?p ?a] =>
+          pose proof (side_state s s m e k p a (or_intror Ha)) as Sa;
+          destruct (side fin s s m e k p a) as [sa [acca|ea]] end; [|discriminate E1].
+        cbn [fst] in Sa. subst sa.
+        match type of E1 with side fin ?S0 s ?m ?e ?k ?p ?a = _ =>
+          pose proof (side_state S0 s m e k p a (or_intror Ha)) as Sb end.
+        rewrite E1 in Sb. cbn [fst] in Sb. congruence.
+    + apply (Merge s1 (proj1 (proj1 G1)) Hh1).
 Qed.
 
 (** which rows an operation keeps: a user table / a file in ANY order, and an extension *)
@@ -1514,18 +1531,28 @@ Proof.
 Qed.
 Print Assumptions derivative_dispatch_reduced.
 
-(** DISPATCH FOR EVERY HISTORY (adaptive bookkeeping on or off): a successful evaluation is the
-    element-wise map of the specification, the lower side judged in the state of the call and
-    the upper side in the (valid, same-modes) state [s1] left by the lower side's direct
-    evaluations; [s1] is the state of the call unless the lower mode is NONE and adaptive
-    bookkeeping is on *)
+(** DISPATCH FOR EVERY HISTORY (adaptive bookkeeping on or off, an adaptive update firing in
+    the middle of the call included): a successful evaluation is the element-wise map of the
+    specification IN THE STATE OF THE CALL -- inside -> spline in its knot range; NONE -> direct;
+    CONSTANT -> spline at the end stored when the call was made; FUNCTION -> extrapolating
+    spline, never nan *)
 Theorem dispatch_all_histories fin s sh pts s' sh' ts : reachable fin s -> hasT s = true ->
-  evaluate fin s true sh pts = (s', Ok (sh', ts)) ->
-  exists s1, Inv fin s1 /\ hasT s1 = true /\ mlo s1 = mlo s /\ mhi s1 = mhi s /\
-             ((mlo s <> NONE \/ adaptive s = false) -> s1 = s) /\
-             ts = map (all_spec fin s s1) pts.
+  evaluate fin s true sh pts = (s', Ok (sh', ts)) -> ts = map (spec_tag fin s 0) pts.
 Proof. intros R. apply evaluate_all_histories_l. exact (reachable_inv fin s R). Qed.
 Print Assumptions dispatch_all_histories.
+
+(** DERIVATIVE DISPATCH FOR EVERY HISTORY: inside -> the spline's derivative in the state of the
+    call; outside -> the stencil whose every point is answered by the mode of its own side in the
+    valid, same-modes state [s1] in which helpers.derivative's second call of
+    _evaluateOutOfBounds is entered ([s1] is the state of the call when adaptive bookkeeping is
+    off; with it on, the first call's direct evaluations may have extended the table) *)
+Theorem derivative_all_histories fin s n sh pts dx pos s' sh' ts : reachable fin s ->
+  hasT s = true -> (n = 1 \/ n = 2)%nat ->
+  derivative fin s n true sh pts dx pos = (s', Ok (sh', ts)) ->
+  exists s1, Inv fin s1 /\ hasT s1 = true /\ mlo s1 = mlo s /\ mhi s1 = mhi s /\
+             (adaptive s = false -> s1 = s) /\ ts = map (dspec2 fin s s1 n dx) pts.
+Proof. intros R. apply deriv_all_histories_l. exact (reachable_inv fin s R). Qed.
+Print Assumptions derivative_all_histories.
 
 (** rows kept by a user-supplied table or a file, rows in ANY order: exactly the finite ones, in
     the given order, each value with its abscissa -- accepted only if that order is strictly
